@@ -365,6 +365,12 @@ def run_unit(unit, tier):
             # discarded lazy elements are never evaluated, so their deferred validation never happens (laziness, not a scope question)
             r.extra["skipped-discard-over-lazystruct"] += 1
             continue
+        chain_g = ["GreedyRange" if k == "GreedyRangeD" else k for k in chain]
+        if "GreedyRange" in chain_g and "LazyStruct" in chain_g[chain_g.index("GreedyRange"):]:
+            # a lazy element defers the validation of what it skips (a Const inside it), so GreedyRange stops elsewhere than over
+            # the eager twin and the error surfaces on access: laziness, not a scope question
+            r.extra["skipped-greedyrange-over-lazystruct"] += 1
+            continue
         lazy_at = chain.index("LazyStruct") if "LazyStruct" in chain else None
         if lazy_at is not None and "Prefixed" in chain[lazy_at:]:
             # a lazily skipped Prefixed member is measured by its static sizeof, not by its length field: lazy-vs-eager
